@@ -618,7 +618,7 @@ def extract_table():
         q.alias = "sq"
         return q
     objs = {
-        ("QueryBuilder", "_from"): lambda: Query.from_(subq()).select("x"),
+        ("QueryBuilder", "_from"): lambda: Query.from_(subq()).select(T_.Field("x")),   # a str would become a Field ON the sub-query
         ("Join", "item"): lambda: Join(subq(), E_.JoinType.cross),
         ("JoinOn", "item"): lambda: JoinOn(subq(), E_.JoinType.inner, T_.Field("k")),
         ("JoinUsing", "item"): lambda: JoinUsing(subq(), E_.JoinType.inner, [T_.Field("k")]),
